@@ -119,7 +119,7 @@ CAPTURE_RULE = (
     "(1) str::replace vs replaceAll: exhaustive patterns over {a,b} up to length 2 x 5 replacements x all subjects up to length 6 (thorough 8), random brace/placeholder fragments; "
     "(2) BashRunner with shell /bin/cat: every expression of up to 2 (thorough 3) tokens over an alphabet holding every placeholder name, braces, newline, CRLF, a divider look-alike and non-ASCII, plus random expressions x names/state directories that themselves contain placeholders x detached; the model renders the CURRENT template; oracle: the script equals the script for a neutral expression with the expression in its place; "
     "(3) replace_crlf: every string over {CR,LF,a} up to length 8 (thorough 10) and random bytes, against the model loop, the Lean spec and an independent Rust spec; render_output over keep_crlf x strip_ansi_escaping x payload menu; "
-    "(4) BashScriptExecutor with a replay shell feeding prepared streams (well-formed and damaged divider lines: wrong index, signs, overflow, missing parts, foreign salt, unterminated, non-UTF-8) to the private divider parser, the timeout path, and a capture shell storing the compiled script; "
+    "(4) BashScriptExecutor with a replay shell that reads the execution's salt from the script it is handed and feeds prepared streams re-salted with it (well-formed and damaged divider lines: wrong index, signs, overflow, missing parts, foreign/near-miss salts, foreign divider starts in front of the real one, unterminated, non-UTF-8) to the private divider parser, the timeout path, and a capture shell storing the compiled script; "
     "(5) real bash through StatefulExecutor(BashRunner) and BashScriptExecutor: payload programs writing prescribed bytes (empty, unterminated, NUL, all 256 byte values, CRLF forms, ANSI, placeholder names, divider look-alikes) to stdout/stderr and exiting with prescribed codes (all of 0..255 in thorough), sequences of 1-4 tests x combined x keep_crlf x skip code, 1 MiB (thorough 4 MiB + 10^6 CRLF pairs) on both streams at once; oracle = the bytes and code the program was told to produce. "
     "non-trivial = the case contains a pattern occurrence / placeholder or brace / CR LF / a divider / a non-empty payload; distinct = distinct model op line"
 )
@@ -236,7 +236,7 @@ GRAMMAR_TB = [
     "the theorem statements in lean/ScrutModel/Props being a faithful reading of the property",
     CORR,
     "hand-written model lean/ScrutModel/Model/Grammar.lean of RuleRegistry::to_expectation_regex (the regex written out as the string function it denotes under leftmost-first semantics), ExpectationMaker::extract/parse (capture-count logic incl. the index panic), RuleRegistry::make dispatch and Rule::to_expression_string; tied to the code by correspondence only",
-    "parameters of the model (theorems hold for all values): the regex crate's \\s class (only `\\s` matches the blank is assumed; the model's Unicode White_Space table is compared with the crate on U+0000-U+30FF), make+unmake of the escaped/glob/regex rules (subject of C04), the escaper (subject of C11); rule matching is a function of (kind, unmake expression) in the model, sampled by the match-equivalence oracle",
+    "parameters of the model (theorems hold for all values): the regex crate's \\s class (only `\\s` matches the blank is assumed; the model's Unicode White_Space table is compared with the crate on U+0000-U+30FF), make+unmake of the escaped/glob/regex rules (subject of C04), the escaper (subject of C11), String::from_utf8_lossy and char::is_whitespace (std; the theorems assume only that every `\\s` character is white space for std, both are compared per code point); rule matching is a function of (kind, unmake expression) in the model, sampled by the match-equivalence oracle",
     "the regex crate implementing leftmost-first semantics",
     RUSTC,
 ]
@@ -254,9 +254,9 @@ PROPS["C08"] = {"rule": GRAMMAR_RULE, "trusted_base": GRAMMAR_TB, "assumptions":
 
 MANIFEST_TEXT = {
     "C08": {
-        "text": "Machine-checked (Lean 4, all lines without line feed, any \\s class, any rule constructors, any escaper): parse never panics and never reports an unknown kind; it fails only with the error of the escaped/glob/regex constructor on the expression in front of a final modifier (C08_total); the recognised modifier is exactly the documented final ` (<kind><quantifier>)` with everything before the white-space character verbatim (C08_grammar: Modifier <-> modifierOf, C08_extract, C08_modifier_parse incl. ?/*/+ flags), the decomposition is unique (C08_modifier_unique, C08_suffix_unique) and every other line incl. `foo ()` is equal for the whole line (C08_otherwise_equal). Round trip PARTIAL: parse(to_expression_string e) = e under decidable guards (C08_roundtrip_partial, C08_roundtrip_matches); the guards are necessary (C08_roundtrip_fails_on_witness, C08_roundtrip_nonequal_iff). Tie to code: exhaustive token-alphabet lines, structured nested suffixes, random lines through the real parse/render/parse under both escapers; backwards-scanner oracle.",
+        "text": "Machine-checked (Lean 4, all lines without line feed, any \\s class, any rule constructors, any escaper): parse never panics and never reports an unknown kind; it fails only with the error of the escaped/glob/regex constructor on the expression in front of a final modifier (C08_total); the recognised modifier is exactly the documented final ` (<kind><quantifier>)` with everything before the white-space character verbatim (C08_grammar: Modifier <-> modifierOf, C08_extract, C08_modifier_parse incl. ?/*/+ flags), the decomposition is unique (C08_modifier_unique, C08_suffix_unique) and every other line incl. `foo ()` is equal for the whole line (C08_otherwise_equal). Round trip (after fix 2c946ec): for every expectation of every kind parse(to_expression_string e) gives e back with the same quantifier (equal with unprintable content as escaped) exactly when the rule constructor reproduces the expression from the rendered text (C08_roundtrip, C08_roundtrip_iff, C08_parse_render, C08_roundtrip_matches); no guard on the text's shape is left because ends_like_modifier over-approximates the grammar (C08_ends_like_modifier_sound; regression example C08_roundtrip_equal_modifier_shaped). PARTIAL in that the constructor contract is a hypothesis (subject of C04/C11) and is false in one known situation (C08_roundtrip_fails_on_witness, open finding). Tie to code: exhaustive token-alphabet lines, structured nested suffixes, random lines through the real parse/render/parse under both escapers; backwards-scanner oracle.",
         "design_ref": "DESIGN.md §6 C08",
-        "note": "Round trip is false today for: equal text ending in a modifier (`foo (glob) (equal)` -> `foo (glob)`), glob/regex/no-eol expressions with unprintable characters (rendered with escapes, re-read literally), escaped expressions with a literal backslash and no unprintable byte, equal text with unprintable characters ending in ` (no-eol)` (EscapedRule::make strips it). Lines containing a line feed panic in parse (out of scope). `\\s` is Unicode white space (doc says a space): NBSP, TAB, U+3000 ... before the parenthesis also make a modifier. Defect repaired earlier by fix: d06722c (`foo ()`).",
+        "note": "Open finding C08:escaped-no-eol-strip-roundtrip: bytes ending in ` (no-eol)` do not survive being written as an escaped expectation (EscapedRule::make strips the suffix, Cram compatibility): `a<TAB> (no-eol) (equal)`, `foo (no-eol) (no-eol) (esc)`. Three round-trip defects repaired by fix: 2c946ec (equal text ending like a modifier; glob/regex/no-eol written through the escaper; escaped with a literal backslash). Lines containing a line feed panic in parse (out of scope). `\\s` is Unicode white space (doc says a space): NBSP, TAB, U+3000 ... before the parenthesis also make a modifier. Defect repaired earlier by fix: d06722c (`foo ()`).",
         "technique": "Lean 4 theorems on a string-function model of the grammar regex + exhaustive differential correspondence + independent backwards-scanner oracle",
     },
     "C04": {
@@ -290,9 +290,9 @@ MANIFEST_TEXT = {
         "technique": "Lean 4 theorems on an executable model of the renderers' decision logic with checked arithmetic + differential correspondence on parsed renderings + direct oracles on all four renderers",
     },
     "C13": {
-        "text": "PARTIAL. Machine-checked for the logic scrut contributes: (a) template rendering: if after the four other substitutions the expression placeholder occurs exactly once (decidable, evaluated on the current template at every run) there are fixed pre/post such that for EVERY expression, also ones containing placeholder names, the script handed to the shell is pre ++ expression ++ post (C13_expression_verbatim; C13_replace_absent/once about str::replace; C13_expression_hypothesis_needed shows the hypothesis is necessary); (b) replace_crlf: the loop never slices out of range and equals the specification 'drop a byte iff it is CR and the next is LF' for outputs of any size, only CRs disappear, order kept, CR CR LF keeps one CR (C13_crlf, C13_crlf_characterisation); render_output is the identity under keep_crlf, never consults the ANSI stripper unless strip_ansi_escaping, and strips after CRLF processing (C13_keep_crlf_identity, C13_no_strip_only_crlf, C13_strip_after_crlf); (c) single-script mode: for any salt without ':'/LF, any payloads (empty, unterminated, arbitrary bytes) that do not contain the divider prefix and exit codes < 2^31 other than the skip code, splitting the streams 'payload, divider line' returns every test's own stdout, stderr and exit code, separated or merged (C13_stream_roundtrip_partial, C13_divider_roundtrip_partial, C13_divider_roundtrip_combined_partial). The guard is necessary: C13_divider_roundtrip_fails_on_witness (known finding C13:divider-lookalike, the parser ignores the salt and finds the prefix anywhere in a line). NOT proved, exercised with real processes on every run: what bash does with the script text, pipe capacity/deadlock with megabytes on both streams at once, Redirection::Merge ordering, stack depth; exit codes 0..255, NUL bytes, all byte values, both executors, all output_stream/keep_crlf/strip_ansi settings, with the bytes the payload program was told to write as oracle.",
+        "text": "PARTIAL. Machine-checked for the logic scrut contributes: (a) template rendering: if after the four other substitutions the expression placeholder occurs exactly once (decidable, evaluated on the current template at every run) there are fixed pre/post such that for EVERY expression, also ones containing placeholder names, the script handed to the shell is pre ++ expression ++ post (C13_expression_verbatim; C13_replace_absent/once about str::replace; C13_expression_hypothesis_needed shows the hypothesis is necessary); (b) replace_crlf: the loop never slices out of range and equals the specification 'drop a byte iff it is CR and the next is LF' for outputs of any size, only CRs disappear, order kept, CR CR LF keeps one CR (C13_crlf, C13_crlf_characterisation); render_output is the identity under keep_crlf, never consults the ANSI stripper unless strip_ansi_escaping, and strips after CRLF processing (C13_keep_crlf_identity, C13_no_strip_only_crlf, C13_strip_after_crlf); (c) single-script mode: for any salt without ':', '~', LF (the real one is 20 random alphanumeric characters per execution), any payloads (empty, unterminated, arbitrary bytes) that do not contain the divider start of this very execution (~~~~~~~~EXECDIVIDER::<salt>::) and exit codes < 2^31 other than the skip code, splitting the streams 'payload, divider line' returns every test's own stdout, stderr and exit code, separated or merged (C13_stream_roundtrip_partial, C13_divider_roundtrip_partial, C13_divider_roundtrip_combined_partial). Output that merely looks like a divider (bare prefix, complete divider lines with another salt) is output: C13_divider_lookalike_is_output (regression for fix 05d9dbd); some guard is unavoidable for an in-band protocol (C13_divider_guard_needed). NOT proved, exercised with real processes on every run: what bash does with the script text, pipe capacity/deadlock with megabytes on both streams at once, Redirection::Merge ordering, stack depth; exit codes 0..255, NUL bytes, all byte values, both executors, all output_stream/keep_crlf/strip_ansi settings, with the bytes the payload program was told to write as oracle.",
         "design_ref": "DESIGN.md §6 C13",
-        "note": "Partial by nature: bash, pipes and the OS are not modelled. Trusted: kernel + 3 standard axioms, the correspondence harness, statement reading; strip_ansi_escapes and shell_escape are parameters. Defects repaired by fix: 35f71bc (placeholders inside the user's expression were substituted), 4cdb4c6 (recursive replace_crlf overflowed the stack). Open finding: C13:divider-lookalike. Also observed, outside the statement: remove_dividers_from_output (timeout path only) joins lines that still end in LF with another LF, so outputs shown after a document timeout have doubled newlines; with zero test cases a divider line on STDERR panics (unreachable with a real shell).",
+        "note": "Partial by nature: bash, pipes and the OS are not modelled. Trusted: kernel + 3 standard axioms, the correspondence harness, statement reading; strip_ansi_escapes and shell_escape are parameters. Defects repaired by fix: 35f71bc (placeholders inside the user's expression were substituted), 4cdb4c6 (recursive replace_crlf overflowed the stack), 05d9dbd (the divider parser ignored the salt: divider-shaped output broke the document), 1cc9f8c (remove_dividers_from_output doubled newlines of output captured before a document timeout). remove_dividers_from_output (timeout path only) still drops every line that starts with the bare prefix, whatever its salt (modelled as it is; outside the statement, which is about completed test cases).",
         "technique": "Lean 4 theorems on executable models of template rendering, CRLF replacement and the divider protocol + differential correspondence with real processes (cat/replay/capture shells, real bash) + direct byte/exit-code oracles",
     },
     "C17": {
@@ -364,7 +364,7 @@ MANIFEST_TEXT = {
 }
 
 # properties whose machinery is merged but being brought up to date with fix commits: not claimed yet
-PENDING = {"C13", "C08"}
+PENDING = set()
 
 WIP = "not yet claimed: model, theorems and correspondence for this property are still being built (see DESIGN.md §11); nothing is asserted about it"
 NOT_APPLICABLE = [{"property_id": "C%02d" % i, "reason": WIP} for i in range(1, 21) if "C%02d" % i not in PROPS or "C%02d" % i in PENDING]
